@@ -1,6 +1,7 @@
 import ast as python_ast
 import copy
 import pickle
+import re
 import tokenize
 from decimal import Decimal
 from functools import cached_property
@@ -219,7 +220,11 @@ class AnnotatingVisitor(python_ast.NodeTransformer):
 
     @cached_property
     def source_lines(self):
-        return self._source_code.splitlines(keepends=True)
+        # split like the python tokenizer does: only "\n", "\r\n" and a lone
+        # "\r" end a line. str.splitlines() also splits on form feed, vertical
+        # tab, "\x1c"-"\x1e", "\x85", "\u2028" and "\u2029", which would shift
+        # the offsets of all later lines.
+        return re.split(r"(?<=\n)|(?<=\r)(?!\n)", self._source_code)
 
     @cached_property
     def line_offsets(self):
